@@ -86,6 +86,46 @@ def c09_groups(pl, res, groups, tier, cov, tag):
     return n_checked
 
 
+def rand_graphs(pid, tier, pl, res, cov):
+    from . import randgraph, trace
+    n = 300 if tier == "quick" else 6000
+    cs = randgraph.cases(seed(), n)
+    path = os.path.join(pl.dir, "rand.ndjson")
+    with open(path, "w") as f:
+        for c in cs:
+            f.write(json.dumps(c) + "\n")
+    runs = []
+    for r in range(3 if pid == "C09" else 1):
+        obs_path, _ = harness.replay(path, os.path.join(pl.dir, f"rand_rp{r}"),
+                                     ["--emit-dir", os.path.join(pl.dir, f"rand_emit{r}"), "--style-seed", str(seed())], jobs=8)
+        runs.append({o["id"]: o for o in tlc.read_ndjson(obs_path)})
+    n_eval = 0
+    if pid == "C09":
+        for c in cs:
+            sigs = {outcome_sig(run[c["id"]]) for run in runs}
+            n_eval += len(runs)
+            if len(sigs) > 1:
+                res.violation(f"a random graph gives {len(sigs)} different results over {len(runs)} natural-order process runs",
+                              payload(dict(c, group="graph-random"), runs[0][c["id"]],
+                                      {"outcomes": [run[c["id"]]["outcome"] for run in runs]}), None)
+    else:
+        recs = [trace.graph_record(c, runs[0][c["id"]]) for c in cs]
+        verdicts, tst = trace.evaluate(recs, os.path.join(pl.dir, "rand_trace"))
+        kf_ids = tst.pop("kf_ids", set())
+        cov["random_graph_trace_validation"] = tst
+        for c in cs:
+            n_eval += 1
+            if pid in verdicts.get(c["id"], set()):
+                o = runs[0][c["id"]]
+                res.violation(f"random graph: build {o['outcome']} ({str(o.get('msg'))[:80]}) but the declarative oracle evaluated by TLC "
+                              f"on the recorded input disagrees (verdict / list of unresolvable types)",
+                              payload(dict(c, group="graph-random"), o), "C10:generated-name" if c["id"] in kf_ids else None)
+        acc = sum(1 for c in cs if runs[0][c["id"]]["accepted"])
+        cov["random_graphs"] = {"n": len(cs), "accepted": acc, "nonterm": sum(1 for c in cs if runs[0][c["id"]].get("class") == "nonterm")}
+    cov["traces_validated_against_impl"] += n_eval
+    return n_eval
+
+
 def run_graph(pid, tier):
     res = Result(pid, tier)
     pl = Pipeline(tier, module="MC_Graph", cfgs=CFG, name="graph",
@@ -112,7 +152,8 @@ def run_graph(pid, tier):
             continue
         # ---------------- C10
         n_checked += 1
-        if obs["accepted"] != oracle["resolvable"]:
+        name_err = obs.get("class") in ("nonterm", "unresolved")
+        if (obs["accepted"] and not oracle["resolvable"]) or (not obs["accepted"] and name_err and oracle["resolvable"]):
             res.violation(
                 f"build {'succeeded' if obs['accepted'] else 'failed (' + obs['outcome'] + ': ' + str(obs.get('msg'))[:80] + ')'} "
                 f"but names defined / by-value acyclic is {oracle['resolvable']}",
@@ -166,6 +207,9 @@ def run_graph(pid, tier):
         for k in ("states", "transitions", "traces_validated_against_impl"):
             cov[k] += bc[k]
         cov["checker_cmd"] += " ; " + bc["checker_cmd"]
+    # ---- direction B: random graphs beyond the exhaustive bounds, natural hash order, TLC as oracle
+    n_rand = rand_graphs(pid, tier, pl, res, cov)
+    n_checked += n_rand
     if sched_miss:
         res.notes.append(f"{sched_miss} behaviours: the unresolved set seen by the code differed from the mirror's in some pass "
                          f"(the hook then falls back to sorted order)")
